@@ -157,6 +157,15 @@ theorem dispHandle2_reach (a : ACfg) (s : St) (v : Nat) : IReach a s (dispHandle
     · exact IReach.of_eq rfl
     · exact startClose_reach a s _ _
   · exact IReach.of_eq rfl
+  · exact IReach.of_eq rfl
+
+theorem handlerDone_reach (a : ACfg) (s : St) (t : ATid) (v : Nat) : IReach a s (handlerDone a s t v) := by
+  unfold handlerDone
+  split
+  · split
+    · exact IReach.of_eq rfl
+    · exact startClose_reach a s _ _
+  · exact IReach.of_eq rfl
 
 theorem stepDisp2_reach (a : ACfg) (s : St) : IReach a s (stepDisp2 a s) := by
   unfold stepDisp2
@@ -186,7 +195,9 @@ theorem stepRun2_reach (a : ACfg) (s : St) (t : ATid) : IReach a s (stepRun2 a s
     · split
       · exact IReach.pre rfl (stepDisp2_reach a _)
       · exact IReach.of_eq rfl
-    · split <;> exact IReach.of_eq rfl
+    · split
+      · exact IReach.pre rfl (handlerDone_reach a _ _ _)
+      · exact IReach.of_eq rfl
     · exact IReach.of_eq rfl
     · split <;> exact IReach.of_eq rfl
     · exact IReach.of_eq rfl
